@@ -76,11 +76,57 @@ def _contains_var(e, varids, cache):
     return r
 
 
+_FAM_CACHE = {}
+
+
+def _consts_of(e, want):
+    """ids of uninterpreted constants of array (or sequence) sort occurring in e"""
+    key = (e.get_id(), want)
+    r = _FAM_CACHE.get(key)
+    if r is not None:
+        return r
+    out = set()
+    stack = [e]
+    seen = set()
+    while stack:
+        x = stack.pop()
+        i = x.get_id()
+        if i in seen:
+            continue
+        seen.add(i)
+        if z3.is_app(x):
+            if x.num_args() == 0:
+                if x.decl().kind() == z3.Z3_OP_UNINTERPRETED:
+                    sk = x.sort().kind()
+                    if (want == "array" and sk == z3.Z3_ARRAY_SORT) or (want == "seq" and sk == z3.Z3_SEQ_SORT):
+                        out.add(i)
+            else:
+                stack.extend(x.children())
+    _FAM_CACHE[key] = out
+    return out
+
+
+def array_consts(e):
+    return _consts_of(e, "array")
+
+
+def seq_consts(e):
+    return _consts_of(e, "seq")
+
+
+def schema_family(sc):
+    f = getattr(sc, "_family", None)
+    if f is None:
+        f = array_consts(sc.body) | seq_consts(sc.body)
+        sc._family = f
+    return f
+
+
 MAX_TERMS_PER_SORT = 80
-MAX_INSTANCES = 6000
+MAX_INSTANCES = 3000
 
 
-def instantiate(ground, schemas, rounds=2, extra_terms=()):
+def instantiate(ground, schemas, rounds=2, extra_terms=(), relevance=True):
     """Return list of ground instances (z3 Bool) of `schemas` over the terms of `ground`."""
     instances = []
     done = set()  # (schema index, tuple of term ids)
@@ -95,27 +141,39 @@ def instantiate(ground, schemas, rounds=2, extra_terms=()):
         terms.extend(fresh_terms)
         new_exprs = []
         # pool for sort-triggered schemas: "key terms" = indices of array reads/writes and values
-        # read from arrays, plus explicitly supplied extra terms
+        # read from arrays, plus explicitly supplied extra terms.  Each pooled term remembers the array
+        # constants it was used with; a schema is instantiated at a term only if they share one
+        # (relevance filter; incompleteness can only lose proofs).
         by_sort = {}
-        pooled = set()
+        pooled = {}
 
-        def pool_add(t):
-            if t.get_id() in pooled:
-                return
-            pooled.add(t.get_id())
-            by_sort.setdefault(_sort_key(t.sort()), []).append(t)
+        def pool_add(t, fam):
+            e = pooled.get(t.get_id())
+            if e is None:
+                e = [t, set()]
+                pooled[t.get_id()] = e
+                by_sort.setdefault(_sort_key(t.sort()), []).append(e)
+            if fam is None:
+                e[1] = None
+            elif e[1] is not None:
+                e[1] |= fam
         for t in extra_terms:
-            pool_add(t)
+            pool_add(t, None)
         for t in terms:
             if not z3.is_app(t):
                 continue
             k = t.decl().kind()
             if k == z3.Z3_OP_SELECT:
-                pool_add(t.arg(1))
+                fam = array_consts(t.arg(0))
+                pool_add(t.arg(1), fam)
                 if not z3.is_bool(t):
-                    pool_add(t)
+                    pool_add(t, fam)
             elif k == z3.Z3_OP_STORE:
-                pool_add(t.arg(1))
+                pool_add(t.arg(1), array_consts(t.arg(0)))
+            elif k == z3.Z3_OP_SEQ_NTH:
+                pool_add(t.arg(1), seq_consts(t.arg(0)))
+            elif k == z3.Z3_OP_UNINTERPRETED and t.decl().name().startswith("sk."):
+                pool_add(t, None)      # skolem witnesses of opaque predicate definitions
         for si, sc in enumerate(schemas):
             max_round = getattr(sc, "rounds", rounds)
             if rnd >= max_round:
@@ -144,10 +202,21 @@ def instantiate(ground, schemas, rounds=2, extra_terms=()):
                     for b in partial:
                         if len(b) == len(varids):
                             bindings.append(b)
+                        else:
+                            # variables the patterns do not bind range over the key-term pool of their sort
+                            rest = [v for v in sc.vars if v.get_id() not in b]
+                            pools = [[(v.get_id(), e[0]) for e in by_sort.get(_sort_key(v.sort()), [])[:MAX_TERMS_PER_SORT]]
+                                     for v in rest]
+                            for combo in itertools.product(*pools):
+                                nb = dict(b)
+                                nb.update(dict(combo))
+                                bindings.append(nb)
             else:
                 pools = []
+                fam_sc = schema_family(sc)
                 for v in sc.vars:
-                    pool = by_sort.get(_sort_key(v.sort()), [])[:MAX_TERMS_PER_SORT]
+                    pool = [e[0] for e in by_sort.get(_sort_key(v.sort()), [])
+                            if (not relevance) or e[1] is None or not fam_sc or (e[1] & fam_sc)][:MAX_TERMS_PER_SORT]
                     pools.append([(v.get_id(), t) for t in pool])
                 n = 1
                 for p in pools:
